@@ -125,12 +125,12 @@ func (p *pipeNet) Send(to peermgr.KeyType, m *pb.Message) (*pb.Message, error) {
 		return nil, fmt.Errorf("request to peer %d timed out", id)
 	}
 }
-func (p *pipeNet) CountConnectedPeers() uint64        { return uint64(p.n - 1) }
-func (p *pipeNet) Peers() map[string]*peer.AddrInfo   { return map[string]*peer.AddrInfo{} }
-func (p *pipeNet) AddNode(uint64, *pb.VpInfo)         {}
-func (p *pipeNet) DelNode(uint64)                     {}
-func (p *pipeNet) Disconnect(map[uint64]*pb.VpInfo)   {}
-func (p *pipeNet) OrderPeers() map[uint64]*pb.VpInfo  { return map[uint64]*pb.VpInfo{} }
+func (p *pipeNet) CountConnectedPeers() uint64                   { return uint64(p.n - 1) }
+func (p *pipeNet) Peers() map[string]*peer.AddrInfo              { return map[string]*peer.AddrInfo{} }
+func (p *pipeNet) AddNode(uint64, *pb.VpInfo)                    {}
+func (p *pipeNet) DelNode(uint64)                                {}
+func (p *pipeNet) Disconnect(map[uint64]*pb.VpInfo)              {}
+func (p *pipeNet) OrderPeers() map[uint64]*pb.VpInfo             { return map[uint64]*pb.VpInfo{} }
 func (p *pipeNet) UpdateRouter(map[uint64]*pb.VpInfo, bool) bool { return false }
 func (p *pipeNet) SubscribeOrderMessage(ch chan<- peermgr.OrderMessageEvent) event.Subscription {
 	return event.NewSubscription(func(q <-chan struct{}) error { <-q; return nil })
